@@ -631,6 +631,11 @@ class Oracle(object):
                              kind=sorted(cl)[0][0], last_op=last_op)
                 elif present:
                     judged[n] = sorted(cl)[0]
+            # -- no event method of an event the machine no longer has -----------------------------
+            stale = [n for n, v in vars(obj).items() if n not in user and machine_bound(v, ('trigger',)) and
+                     getattr(getattr(v.func, '__self__', None), 'name', None) not in m.events]
+            if stale:
+                self.bad('event-method-of-an-event-the-machine-no-longer-has', model=i, names=sorted(stale), last_op=last_op)
             # -- exactly one is_<state>() is True: the current state's -------------------------
             trues = []
             for s in m.states:
